@@ -52,8 +52,15 @@ def main():
         ctx.coverage.setdefault('distinct_nontrivial', 2)
         return ctx.finish()
     except Exception:
+        # the check itself failed on this tree (an unexpected shape of the real code's output, a tool that died ...): the
+        # property is then not shown to hold; report it as such rather than exiting with an unexplained status
+        tb = traceback.format_exc()
         traceback.print_exc()
-        return 2
+        ctx.violation('check-error', 'the check could not be completed on this tree: ' + tb.strip().split('\n')[-1][:300],
+                      {'kind': 'check-error', 'traceback': tb[-4000:], 'broken': 'check machinery (%s)' % a.pid}, found_input=False)
+        ctx.coverage.setdefault('evaluations', 1)
+        ctx.coverage.setdefault('distinct_nontrivial', 2)
+        return ctx.finish()
 
 
 if __name__ == '__main__':
